@@ -30,13 +30,9 @@ theorem protocol_skeleton_ok : protocolFns.all (fun n => lookupFn n Gen.skeleton
 theorem function_set_ok : Gen.skeleton.map (·.name) = Expected.functions.map (·.1) := by decide +kernel
 
 theorem sendsWhileLocked_ok : Gen.sendsWhileLocked = Expected.sendsWhileLocked := by decide +kernel
-theorem needMu_ok : Gen.needMuFromCaller = Expected.needMuFromCaller ∧ Gen.needCookiesMuFromCaller = Expected.needCookiesMuFromCaller := by decide +kernel
 theorem closers_ok : Gen.closers = Expected.closers := by decide +kernel
 theorem senders_ok : Gen.senders = Expected.senders := by decide +kernel
 theorem goStmts_ok : Gen.goStmts = Expected.goStmts := by decide +kernel
-theorem syscalls_ok : Gen.syscalls = Expected.syscalls := by decide +kernel
-theorem chanCaps_ok : Gen.chanCaps = Expected.chanCaps := by decide +kernel
-theorem pkgVars_ok : Gen.pkgVarsWritten = [] ∧ Gen.pkgVars = Expected.pkgVars := by decide +kernel
 theorem withCreate_dead : Gen.withCreateCallers = [] := by decide +kernel
 
 end SkeletonTie
